@@ -139,9 +139,18 @@ pub fn evaluate_filters(
         if let Some(&lhs_code) = bindings.get(&filter.variable) {
             // If the filter value is itself a bound variable, compare by dictionary ID
             if let Some(&rhs_code) = bindings.get(&filter.value) {
+                // (in)equality of two variables is identity of terms; the order
+                // comparisons compare their numeric values, as for a constant
+                let numeric = |code: u32| -> f64 {
+                    dict.decode(code).unwrap_or("").parse().unwrap_or(0.0)
+                };
                 match filter.operator.as_str() {
                     "!=" if lhs_code == rhs_code => return false,
                     "=" if lhs_code != rhs_code => return false,
+                    ">" if numeric(lhs_code) <= numeric(rhs_code) => return false,
+                    "<" if numeric(lhs_code) >= numeric(rhs_code) => return false,
+                    ">=" if numeric(lhs_code) < numeric(rhs_code) => return false,
+                    "<=" if numeric(lhs_code) > numeric(rhs_code) => return false,
                     _ => {}
                 }
             } else {
